@@ -81,11 +81,33 @@ def main():
     failures = []
     other_failures = []
     for r in results:
+        soft_done = set()
         for f in r['failures']:
-            if not f['props'] or pid in f['props']:
-                failures.append(f)
-            else:
+            if not (not f['props'] or pid in f['props']):
                 other_failures.append(f)
+                continue
+            if f.get('hints_lost'):
+                # the body was rewritten and the proof hints could not be placed: a failed obligation of this
+                # function is a violation only if its bounded twin finds a concrete failing input
+                fn = f['function']
+                if fn in soft_done:
+                    continue
+                soft_done.add(fn)
+                try:
+                    import kanirun
+                    cex = kanirun.counterexample_for({'function': fn})
+                except Exception as e:
+                    cex = {'found': False, 'note': str(e)}
+                if cex.get('found'):
+                    f = dict(f)
+                    f['obligation'] = 'twin/%s (body rewritten, proof hints lost; bounded twin %s found a failing input)' % (fn, cex.get('harness'))
+                    f['counterexample'] = cex
+                    failures.append(f)
+                else:
+                    undecided.append({'unit': r['unit'], 'status': 'undecided',
+                                      'reason': 'hints lost in rewritten %s and its contract no longer verifies; no failing input within the twin bound (%s)' % (fn, cex.get('note'))})
+                continue
+            failures.append(f)
     for k in kani_results:
         for f in k.get('failures', []):
             failures.append(f)
